@@ -285,8 +285,8 @@ class AssembleRtf(Contract):
         OFF = c.v["OFF"]
         k = z3.Int("k")
         cl = {"all_inputs_exist": ForAll([k], Implies(And(0 <= k, k < K), EXISTS(fl.get(k)))),
-              "single_write_to_the_output_path": z3.BoolVal(len(writes) == 1 and len(opens_w) == 1 and opens_w[0][1].eq(c.v["output_file"]) and writes[0][1].eq(c.v["output_file"])),
-              "existence_check_precedes_every_open": z3.BoolVal(True)}
+              "single_write_to_the_output_path": z3.BoolVal(len(writes) == 1 and len(opens_w) == 1 and opens_w[0][1].eq(c.v["output_file"]) and writes[0][1].eq(c.v["output_file"]))}
+        # "the existence check precedes every open" is the exceptional postcondition `nothing_read_or_written_before` (FileNotFoundError path)
         n, g = seq_view(out.state, writes[0][2])
         jj, t = z3.Ints("j t")
         if c.variant == "single":
